@@ -63,6 +63,13 @@ pub fn mutants(text: &str) -> Vec<(String, String)> {
                 format!("{}{}{}", &text[..t.start], flipped, &text[t.end..]),
             );
         }
+        // an opening quote / comment / raw-string at the gap: everything after it is swallowed
+        // by an unterminated literal (the lexer raises a fatal error for these)
+        for (j, ins) in ["\"", "/*", "'", "r#\"", "b\"", "/**", "\\"].iter().enumerate() {
+            if i % 4 == j % 4 {
+                push(format!("open{i}.{j}"), format!("{}{}{}", &text[..t.end], ins, &text[t.end..]));
+            }
+        }
         // non-ASCII insertion at the gap after the token
         for (j, ins) in ["é", "日本", "a\u{301}", "\u{feff}", "\u{a0}", "🦀"].iter().enumerate() {
             if i % 3 == j % 3 {
